@@ -2,6 +2,7 @@ package main
 
 import (
 	"fmt"
+	"go/token"
 	"go/types"
 	"math/big"
 	"sort"
@@ -133,7 +134,14 @@ type X struct {
 	postEnv  *Env
 	noWrap   bool
 	noRetry  map[string]bool
+	rootRets []retPoint
 	stale    []string // contract clauses that could not be evaluated against the current code
+}
+
+type retPoint struct {
+	pc   *Term
+	pos  string
+	tpos token.Pos
 }
 
 // callEvent records the symbolic result of a call to a function that was
@@ -152,6 +160,16 @@ func NewX(w *World, root string, mode *Mode) *X {
 		rangeOf: map[*Term]Value{}, boxed: map[*Term]Value{}, typeByKey: map[string]types.Type{}, isFresh: map[*Term]bool{},
 		cellEscaped: map[int]bool{}, usedContracts: map[string]*Contract{}, unknownCalls: map[string]int{},
 		untracked: map[string]bool{"log": true, "conn": true, "stdout": true}, inlineExternal: map[string]bool{}, unescaped: map[*Term]bool{}, neqMemo: map[[2]int]bool{}, contained: map[*Term][]*Term{}}
+}
+
+// sortedCellIDs: deterministic iteration over a cell map.
+func sortedCellIDs[V any](m map[int]V) []int {
+	ids := make([]int, 0, len(m))
+	for id := range m {
+		ids = append(ids, id)
+	}
+	sort.Ints(ids)
+	return ids
 }
 
 func (x *X) noteStale(msg string) {
@@ -328,6 +346,50 @@ func (x *X) typeFacts(t *Term, lf Leaf) {
 		return
 	}
 	B := x.B
+	// Typing facts are asserted without a path condition, so they may only be stated about
+	// terms whose value does not depend on the path: symbols (parameters, results of calls,
+	// heap variables of some epoch and reads from them, uninterpreted applications). For a
+	// merged or updated value the facts are stated about its symbolic constituents; what a
+	// computed value (say len-1 after s[1:]) satisfies follows from the path (the run-time
+	// check that guards the operation is assumed after it).
+	switch t.Op {
+	case "const", "app":
+	case "ite":
+		x.typeFacts(t.Args[1], lf)
+		x.typeFacts(t.Args[2], lf)
+		return
+	case "select":
+		a, i := t.Args[0], t.Args[1]
+		switch a.Op {
+		case "store":
+			x.typeFacts(B.Select(a.Args[0], i), lf)
+			return
+		case "ite":
+			x.typeFacts(B.Select(a.Args[1], i), lf)
+			x.typeFacts(B.Select(a.Args[2], i), lf)
+			return
+		case "select":
+			// nested heap (E: spaces): select(select(H, base), idx)
+			h := a.Args[0]
+			switch h.Op {
+			case "store":
+				x.typeFacts(B.Select(B.Select(h.Args[0], a.Args[1]), i), lf)
+				return
+			case "ite":
+				x.typeFacts(B.Select(B.Select(h.Args[1], a.Args[1]), i), lf)
+				x.typeFacts(B.Select(B.Select(h.Args[2], a.Args[1]), i), lf)
+				return
+			case "const":
+			default:
+				return
+			}
+		case "const", "app":
+		default:
+			return
+		}
+	default:
+		return
+	}
 	switch lf.Role {
 	case "len", "off":
 		x.assumeGlobal(B.And(B.Le(B.Int(0), t), B.Le(t, B.BigInt(maxLen))), "slice range")
@@ -393,7 +455,28 @@ func (x *X) sliceFacts(v Value) {
 		return
 	}
 	x.typed[key] = true
+	if !pathIndependent(ln) || !pathIndependent(cp) || !pathIndependent(off) {
+		return // see typeFacts: only symbols get unguarded facts
+	}
 	x.assumeGlobal(B.And(B.Le(ln, cp), B.Le(B.Add(off, cp), B.BigInt(maxLen))), "slice len<=cap")
+}
+
+// pathIndependent: the term is a symbol or a read from a heap variable of some
+// epoch (its typing does not depend on which path is being executed).
+func pathIndependent(t *Term) bool {
+	switch t.Op {
+	case "int", "const", "app":
+		return true
+	case "select":
+		a := t.Args[0]
+		if a.Op == "const" || a.Op == "app" {
+			return true
+		}
+		if a.Op == "select" && (a.Args[0].Op == "const" || a.Args[0].Op == "app") {
+			return true
+		}
+	}
+	return false
 }
 
 func (x *X) strLen(t *Term) *Term {
@@ -421,12 +504,23 @@ func (x *X) strLit(s string) *Term {
 	x.strLits[s] = t
 	x.assumeGlobal(x.B.Eq(x.strLen(t), x.B.Int(int64(len(s)))), "string literal length")
 	// distinct from all earlier literals
-	for o, ot := range x.strLits {
+	var olds []string
+	for o := range x.strLits {
+		olds = append(olds, o)
+	}
+	sort.Strings(olds)
+	for _, o := range olds {
 		if o != s {
-			x.assumeGlobal(x.B.Neq(t, ot), "distinct string literals")
+			x.assumeGlobal(x.B.Neq(t, x.strLits[o]), "distinct string literals")
 		}
 	}
-	for _, sp := range x.W.Specs.StrPreds {
+	var spn []string
+	for n := range x.W.Specs.StrPreds {
+		spn = append(spn, n)
+	}
+	sort.Strings(spn)
+	for _, n := range spn {
+		sp := x.W.Specs.StrPreds[n]
 		x.assumeGlobal(x.B.Eq(x.strPredApp(sp, t), x.B.Bool(sp.Eval(s))), "string predicate on literal")
 	}
 	// byte contents for short literals
@@ -678,11 +772,17 @@ func (x *X) load(s *State, l *Loc, t types.Type) Value {
 		v.L[i] = x.loadLeaf(s, l, lf)
 		if len(x.unescaped) > 0 && lf.Sort == IntSort && pointerLike(lf) && !x.B.hasBoundVar(v.L[i]) {
 			// a pointer read from the heap cannot be an object whose address was never stored there
+			var urs []*Term
 			for r := range x.unescaped {
+				urs = append(urs, r)
+			}
+			sort.Slice(urs, func(a, b int) bool { return urs[a].id < urs[b].id })
+			for _, r := range urs {
 				k := [2]int{v.L[i].id, r.id}
-				if v.L[i] != r && !x.neqMemo[k] {
+				if v.L[i] != r && !x.neqMemo[k] && !v.L[i].IsLit() {
 					x.neqMemo[k] = true
-					x.assumeGlobal(x.B.Neq(v.L[i], r), "heap-loaded pointer differs from unescaped fresh object")
+					// (a "fresh" result of a contract may be nil on its error path)
+					x.assumeGlobal(x.B.Or(x.B.Eq(r, x.B.Int(0)), x.B.Neq(v.L[i], r)), "heap-loaded pointer differs from unescaped fresh object")
 				}
 			}
 		}
@@ -816,7 +916,8 @@ func (x *X) havocByType(s *State, t types.Type, why string) {
 	for k, v := range boxes {
 		s.heap[k] = v
 	}
-	for id, v := range s.cells {
+	for _, id := range sortedCellIDs(s.cells) {
+		v := s.cells[id]
 		if x.cellEscaped[id] && types.Identical(v.T, t) {
 			s.cells[id] = x.freshValue(v.T, "cell")
 		}
@@ -849,7 +950,12 @@ func (x *X) mergeStates(conds []*Term, states []*State) *State {
 			prefixes[p] = true
 		}
 	}
+	var plist []string
 	for p := range prefixes {
+		plist = append(plist, p)
+	}
+	sort.Strings(plist)
+	for _, p := range plist {
 		same := true
 		v0, ok0 := states[0].pgen[p]
 		for _, s := range states[1:] {
@@ -895,7 +1001,7 @@ func (x *X) mergeStates(conds []*Term, states []*State) *State {
 			ids[k] = true
 		}
 	}
-	for id := range ids {
+	for _, id := range sortedCellIDs(ids) {
 		var cur *Value
 		for i := len(states) - 1; i >= 0; i-- {
 			v, ok := states[i].cells[id]
